@@ -16,7 +16,7 @@ the change, the demo fails with it) before being kept, and the registered checks
 None of these changes is ever applied to /repo. To re-run one: `tools/seed_eval.sh <name> seeded/<name>/patch.diff
 seeded/<name>/demo.py "<property ids>"`; to re-run all of them: `tools/seed_all.sh` (last result: `RESULTS.txt`).
 
-%d changes in eight rounds: round 1 has one per property (20); round 2 a second, different change for every property
+%d changes in nine rounds: round 1 has one per property (20); round 2 a second, different change for every property
 (20; the authors were told the earlier ideas so as to avoid them); rounds 3 and 4 (8 + 12, all twenty properties)
 asked for violations that are HISTORY- or CONFIGURATION-DEPENDENT (only a sequence of calls on the same objects
 misbehaves); round 5 (12 + 8, all twenty properties) asked for changes about element NAMES / TYPES, BOUNDARY shapes,
@@ -24,7 +24,8 @@ NUMERIC issues or unusual parameter combinations; round 6 (20, `-r6-`) asked for
 parameters, alternative entry points), plausible PERFORMANCE OPTIMISATIONS that are wrong on a structural corner, or two
 cooperating sites; round 7 (20, `-r7-`) asked the authors to break ONLY the least-tested secondary clause of
 the statement (a refusal, an "exactly when", a "never", the second of two variants, objects left untouched); round 8 (20, `-r8-`) asked for changes in LOW-LEVEL SHARED MODULES (element, ranking, dataset, consensus, the
-shared cost kernel) that break the property through that dependency. %d were caught by the check of their own property as it stood when they were first evaluated; %d
+shared cost kernel) that break the property through that dependency; round 9 (19, `-r9-`; the author for C15 failed) asked for RARITY: a natural structural trigger
+met by fewer than one uniformly random small input in 10 000. %d were caught by the check of their own property as it stood when they were first evaluated; %d
 were missed by it at first (%s) - several of those were caught by another property's
 check - and led to the generator / sub-check additions recorded in the last column and in DESIGN.md section 11. All
 are caught by the quick tier now, with three remarks: `C07-stepback-only-if-incomparable` at 3 seeds out of 4;
